@@ -17,6 +17,8 @@ import Rc.Drv.C05
 import Rc.Drv.C14
 import Rc.Drv.C08
 import Rc.Drv.C16
+import Rc.Drv.C09
+import Rc.Drv.C20
 import Rc.Drv.C18
 
 def dispatch (prop : String) : Option (List String → String) :=
@@ -35,6 +37,8 @@ def dispatch (prop : String) : Option (List String → String) :=
   | "C14" => some Rc.Drv.C14.handle
   | "C08" => some Rc.Drv.C08.handle
   | "C16" => some Rc.Drv.C16.handle
+  | "C09" => some Rc.Drv.C09.handle
+  | "C20" => some Rc.Drv.C20.handle
   | "C18" => some Rc.Drv.C18.handle
   | _ => none
 
